@@ -59,7 +59,7 @@ class C09(Mon):
                 self.due = True
             elif msg.command == "checkpoint":
                 w.ok(f"{REQ}._checkpoint#ensures[with a deferred pause pending the engine pauses at the checkpoint, before any later message]")
-        elif kind == "rewind":
+        elif kind == "rewind" and isinstance(a[0], list):
             if self.from_deferred:
                 w.check(f"{REQ}._rewind#ensures[resuming from a deferred pause replays nothing]", len(a[0]) == 0,
                         dict(info, replayed=[m.command for m in a[0]]))
